@@ -13,6 +13,7 @@ VERIF = os.path.dirname(os.path.dirname(os.path.abspath(__file__)))
 PROPS = ['C01', 'C02', 'C03', 'C06', 'C07', 'C08', 'C09', 'C10', 'C12', 'C13', 'C14', 'C16', 'C18', 'C19', 'C20']
 
 _RULES = {}  # property -> list of RuleDef
+LAST_ERRORS = []  # analysis errors of the last run_property call that ALSO found violations (reported, not hidden)
 
 
 class RuleDef:
@@ -50,6 +51,7 @@ class RuleRun:
         self.rdef = rdef
         self.instances = []
         self.analysed = {'functions': set(), 'call_sites': 0}
+        self.error = None
 
     def fn(self, where):
         self.analysed['functions'].add(where)
@@ -113,22 +115,31 @@ def run_property(prop, root='/repo', tier='quick', seed=0, only_rule=None):
     load_rules()
     ctx = Ctx(root, tier, seed)
     runs = []
+    errors = []
     for rdef in _RULES.get(prop, []):
         if rdef.tier == 'thorough' and tier != 'thorough':
             continue
         if only_rule and rdef.rid != only_rule:
             continue
         rr = RuleRun(rdef)
-        rdef.fn(ctx, rr)
-        n = rr.count()
-        if n < rdef.floor and not os.environ.get('SA_NOFLOOR') and not any(i.status == 'violated' for i in rr.instances):
-            raise AnalysisError(
-                f'{rdef.rid}: only {n} instance(s) examined, floor is {rdef.floor} - the rule lost its anchors '
-                f'(pattern no longer recognised); refusing to pass vacuously'
-            )
+        try:
+            rdef.fn(ctx, rr)
+            n = rr.count()
+            if n < rdef.floor and not os.environ.get('SA_NOFLOOR') and not any(i.status == 'violated' for i in rr.instances):
+                raise AnalysisError(
+                    f'{rdef.rid}: only {n} instance(s) examined, floor is {rdef.floor} - the rule lost its anchors '
+                    f'(pattern no longer recognised); refusing to pass vacuously'
+                )
+        except AnalysisError as e:
+            # keep going: a violation found by another rule must not be hidden behind an analysis error of this one
+            rr.error = str(e)
+            errors.append(f'{rdef.rid}: {e}')
         runs.append(rr)
     if not runs:
         raise AnalysisError(f'no rules registered for {prop}')
+    if errors and not any(i.status == 'violated' for rr in runs for i in rr.instances):
+        raise AnalysisError(' ;; '.join(errors))
+    LAST_ERRORS[:] = errors
     return runs
 
 
@@ -283,6 +294,8 @@ def main(argv=None):
             print(f'KNOWN-FINDING: property={prop} {inst.rule} {inst.where} {inst.construct} :: {k.get("what", "")}')
         if not args.no_evidence and os.path.abspath(args.root) == '/repo':
             write_evidence(prop, args.tier, seed, runs, kf, viol, wall, info['explanation'], info['not_decided'], extra)
+        for e_ in LAST_ERRORS:
+            print(f'ANALYSIS-ERROR (rule skipped, other rules still decide): {e_}')
         if viol:
             for inst in viol:
                 path = write_replay(prop, inst, args.root) if os.path.abspath(args.root) == '/repo' else '-'
